@@ -666,6 +666,7 @@ pub fn round(cfg: &RoundCfg, seed: u64) -> (Vec<(String, String, String)>, Round
         let mut next_seq = vec![0u32; sh.kids.len()];
         let mut handles = Some(handles);
         let mut phase_b = false;
+        let mut pendings_after_done = 0u64;
         let mut idle = 0u32;
         let mut guard = 0u64;
         'outer: loop {
@@ -700,6 +701,15 @@ pub fn round(cfg: &RoundCfg, seed: u64) -> (Vec<(String, String, String)>, Round
                 match r {
                     Out::Pending => {
                         fnv(&mut sig, 0xfff0);
+                        if !phase_b && handles.as_ref().map_or(true, |h| h.iter().all(|h| h.is_finished())) {
+                            // every waker thread is done: what is queued is finite, so the task
+                            // must fall asleep after a few more polls (M-IDLE)
+                            pendings_after_done += 1;
+                            if pendings_after_done > 64 + 2 * sh.kids.len() as u64 {
+                                sh.violation("C14", "spins_after_wakers_done", format!("{pendings_after_done} Pending polls, each with the task woken, after the last child-waker call had returned"));
+                                break 'outer;
+                            }
+                        }
                         break;
                     }
                     Out::Kid(i) => {
@@ -794,11 +804,18 @@ pub fn round(cfg: &RoundCfg, seed: u64) -> (Vec<(String, String, String)>, Round
                         // nothing may be polled - unless an entry sits in the ready queue twice
                         if !finished {
                             for _ in 0..2 {
+                                sh.woken[k].store(false, SeqCst);
                                 let r = {
                                     let _f = InFlight::new(0);
                                     subj.poll(&mut cx)
                                 };
                                 st.polls += 1;
+                                if matches!(r, Out::Pending) && sh.woken[k].load(SeqCst) {
+                                    // every waker thread is done and the executor had gone to
+                                    // sleep: nobody invoked a child waker, yet the collection woke
+                                    // its task (M-IDLE)
+                                    sh.violation("C14", "idle_collection_woke_its_task", format!("idle poll with task waker {k}: nothing was woken since the executor went to sleep, yet the poll returned Pending with its task waker invoked"));
+                                }
                                 match r {
                                     Out::Pending => {}
                                     Out::Done | Out::All(_) => {
